@@ -167,8 +167,8 @@ def run_trace_property(prop, families, tier, seed, replay=None, assumptions=None
 
     coverage = {
         "obligations": max(obligations, 1), "discharged": discharged,
-        "checker_cmd": f"cd lean && lake build TarpcModel.Props.{prop} && lake env lean .cache/audit/{prop}.lean  (#print axioms)" +
-                       (" && lake env leanchecker TarpcModel.Props." + prop if thorough else ""),
+        "checker_cmd": f"cd lean && lake build TarpcModel.Props.{prop}* driver && lake env lean ../.cache/audit/{prop}.lean  (#print axioms on every theorem)" +
+                       (f" && lake env leanchecker TarpcModel.Props.{prop}*" if thorough else ""),
         "trusted_base": core.TRUSTED_BASE,
         "theorems": lean["theorems"], "axioms": lean["axioms"], "lean_errors": lean["errors"],
         "evaluations": stats["evaluations"], "distinct_nontrivial": len(stats["nontrivial_hashes"]),
